@@ -209,12 +209,61 @@ _ORDER = [
 _code = {}
 
 
+_baseline = None
+
+
+def _reset_process_state():
+    """Undo what a change under test may have stashed outside the library's own
+    modules: attributes added to torch / numpy / builtins / sys / os / pywt (and
+    torch.Tensor, nn.Module) since the library was first imported, the process
+    environment, and files in the private home/temp directory.  On the pinned
+    tree none of these ever change (probed over 360 runs)."""
+    global _baseline
+    import builtins
+    import os
+    import shutil
+    import numpy
+    import pywt
+    import torch
+    import torch.nn.functional as F
+    spaces = {"torch": torch, "numpy": numpy, "builtins": builtins, "sys": sys, "os": os,
+              "torch.nn": torch.nn, "F": F, "autograd": torch.autograd, "pywt": pywt,
+              "Tensor": torch.Tensor, "Module": torch.nn.Module}
+    if _baseline is None:
+        _baseline = ({k: set(vars(m)) for k, m in spaces.items()}, dict(os.environ))
+        return
+    base, envb = _baseline
+    for k, m in spaces.items():
+        for name in set(vars(m)) - base[k]:
+            if name.startswith("__"):
+                continue
+            try:
+                delattr(m, name)
+            except Exception:  # noqa
+                pass
+    if dict(os.environ) != envb:
+        os.environ.clear()
+        os.environ.update(envb)
+    sc = env.SCRATCH
+    if sc and os.path.isdir(sc):
+        for entry in os.listdir(sc):
+            pth = os.path.join(sc, entry)
+            if os.path.isdir(pth) and not os.path.islink(pth):
+                shutil.rmtree(pth, True)
+            else:
+                try:
+                    os.remove(pth)
+                except OSError:
+                    pass
+
+
 def fresh_library(patch_stream=False):
     """Re-execute the library's module bodies (in dependency order) inside
     their existing module objects: every module-level global (COEFF_CACHE, any
     memo table, class attributes) is back to its import-time value.  Code
     objects are compiled once per process, so this costs ~1 ms."""
     L = env.lib()
+    _reset_process_state()
     known = set(_ORDER)
     extra = []
     for name in sorted(sys.modules):
